@@ -15,8 +15,10 @@ def absGuid (g : util.EFIGUID) : Guid := ⟨g.Data1.toNat, g.Data2.toNat, g.Data
 theorem C17g_cmp_fieldwise (a b : util.EFIGUID) :
     util.CmpEFIGUID a b = true ↔
       a.Data1 = b.Data1 ∧ a.Data2 = b.Data2 ∧ a.Data3 = b.Data3 ∧ a.Data4 = b.Data4 := by
-  unfold util.CmpEFIGUID
-  simp only [Bool.and_eq_true, beq_iff_eq, and_assoc]
+  -- written so that it survives the usual rewrites of the Go function (field-wise `&&` chain, struct `==`)
+  cases a; cases b
+  set_option linter.unusedSimpArgs false in
+  simp [util.CmpEFIGUID, and_assoc]
 
 theorem C17g_cmp_model (a b : util.EFIGUID) :
     util.CmpEFIGUID a b = cmpGuid (absGuid a) (absGuid b) := by
